@@ -850,10 +850,11 @@ func runHeaderCases(o *corr.Out) {
 // ---------------------------------------------------------------- mux: schedules
 
 type muxRun struct {
-	evs  []string
-	fin  []string
-	bad  string
-	used bool // interleaving: some op happened while a connection was mid-prefix or waiting
+	notEnabled string
+	evs        []string
+	fin        []string
+	bad        string
+	used       bool // interleaving: some op happened while a connection was mid-prefix or waiting
 }
 
 type muxScenario struct {
@@ -986,6 +987,12 @@ func runMux(o *corr.Out, sc muxScenario) (mr muxRun) {
 		if busy && op[0] != 'W' && op[0] != 'E' {
 			mr.used = true
 		}
+		if !w.valid(op) {
+			// the schedule was generated from the documented behaviour; the implementation has fewer
+			// listeners / connections than it should have at this point
+			mr.notEnabled = op
+			break
+		}
 		pre, err := w.apply(op)
 		if err == nil {
 			_, err = settle(self, waitLimit)
@@ -1004,8 +1011,15 @@ func runMux(o *corr.Out, sc muxScenario) (mr muxRun) {
 		}
 		mr.evs = append(mr.evs, ev)
 	}
-	if mr.bad == "" {
+	if mr.bad == "" && mr.notEnabled == "" {
 		mr.fin, mr.bad = w.finish(o, sc)
+	}
+	if mr.notEnabled != "" {
+		w.cancel()
+		for _, c := range w.conns {
+			c.clientClose()
+		}
+		_, _ = settle(self, waitLimit)
 	}
 	if mr.bad != "" {
 		// abandon the world: let everything go as far as possible
@@ -1141,6 +1155,9 @@ func (w *world) finish(o *corr.Out, sc muxScenario) (fin []string, bad string) {
 }
 
 func (mr muxRun) answer() string {
+	if mr.notEnabled != "" {
+		return "ev=" + strings.Join(mr.evs, "|") + " not-enabled:" + mr.notEnabled
+	}
 	fin := "-"
 	if len(mr.fin) > 0 {
 		fin = strings.Join(mr.fin, " ")
